@@ -182,10 +182,10 @@ func (g *genB) finish(body string) string {
 		name := bPkgName[a]
 		local := a
 		switch g.tp.Int(6) {
-		case 0, 1:
+		case 0:
 			// files of one package may disagree on the alias of a path
 			local = a + "x"
-		case 2:
+		case 1, 2:
 			// ... or call it like another package of the universe
 			cands := []string{"afoo", "bfoo", "onebaz", "thing", "mn", "bar", "baz", "foo", "client"}
 			cnd := cands[g.tp.Int(len(cands))]
